@@ -58,6 +58,13 @@ class ExprMixin:
     def to_term(self, v):
         if isinstance(v, tuple):
             return v
+        if isinstance(v, (PyList, PyDict)) and not getattr(self, "_quiet_reads", 0) and hasattr(self, "grown_in_running_loop"):
+            g = self.grown_in_running_loop(v)
+            if g is not None:
+                # read as a whole while the loop that modifies it is running: the state after the iterations so far
+                sofar = self._safe_term(v)
+                self.event("prefix-read", {"loop": g[1], "list": sofar}, None)
+                return ("carried", g[0], g[1], sofar)
         if isinstance(v, PyList):
             items = []
             cur = getattr(self, "loops", ())
@@ -260,7 +267,7 @@ class ExprMixin:
                         for tg in n.targets:
                             if isinstance(tg, ast.Attribute) and isinstance(tg.value, ast.Name) and tg.value.id == "self" \
                                     and tg.attr == name:
-                                ty = self._rhs_type(n.value, c.module)
+                                ty = self._rhs_type(n.value, c.module, fn)
                                 if ty is not None:
                                     res.append(ty)
         out = P.t_union(res) if res else None
@@ -300,7 +307,29 @@ class ExprMixin:
         self._ptype_cache[key] = res
         return res
 
-    def _rhs_type(self, v, module):
+    def _local_type(self, fn, name, module, depth=0):
+        """type of a local variable of `fn` from the way the function builds it: its assignments, and for a list the
+        arguments of its .append() calls"""
+        if fn is None or depth > 3:
+            return None
+        tys, elts = [], []
+        for n in ast.walk(fn):
+            if isinstance(n, ast.Assign) and any(isinstance(t, ast.Name) and t.id == name for t in n.targets):
+                ty = self._rhs_type(n.value, module, fn, depth + 1)
+                if ty is not None:
+                    tys.append(ty)
+            elif isinstance(n, ast.Call) and isinstance(n.func, ast.Attribute) and n.func.attr == "append" \
+                    and isinstance(n.func.value, ast.Name) and n.func.value.id == name and len(n.args) == 1:
+                et = self._rhs_type(n.args[0], module, fn, depth + 1)
+                if et is not None:
+                    elts.append(et)
+        if elts and tys and all(t[0] == "list" for t in tys):
+            return ("list", P.t_union(elts))
+        return P.t_union(tys) if tys else None
+
+    def _rhs_type(self, v, module, fn=None, depth=0):
+        if isinstance(v, ast.Name) and fn is not None:
+            return self._local_type(fn, v.id, module, depth)
         if isinstance(v, ast.Call):
             f = v.func
             if isinstance(f, ast.Attribute) and isinstance(f.value, ast.Name) and f.value.id == "z3":
@@ -314,7 +343,7 @@ class ExprMixin:
         if isinstance(v, ast.List):
             return ("list", ("prim", "any"))
         if isinstance(v, ast.ListComp):
-            et = self._rhs_type(v.elt, module)
+            et = self._rhs_type(v.elt, module, fn, depth)
             return ("list", et or ("prim", "any"))
         if isinstance(v, ast.Dict):
             return ("dict", ("prim", "any"), ("prim", "any"))
@@ -839,6 +868,12 @@ class ExprMixin:
         return app(op, a, b)
 
     def contains(self, op, a, b):
+        if isinstance(b, (PyList, PyDict)) and self.grown_in_running_loop(b) is not None:
+            g = self.grown_in_running_loop(b)
+            sofar = self._safe_term(b)
+            # a membership test against the container being filled: "seen before" (a first-occurrence filter)
+            self.event("prefix-read", {"loop": g[1], "list": sofar, "how": "membership", "tested": a, "container": b}, None)
+            return app(op, a, ("carried", g[0], g[1], sofar))
         if isinstance(b, PyList) and b.plain() and is_const(a) and all(is_const(self.to_term(i.value)) for i in b.items):
             r = a[1] in [self.to_term(i.value)[1] for i in b.items]
             return K(r if op == "in" else not r)
@@ -1092,6 +1127,15 @@ class ExprMixin:
 
         try:
             rec(0)
+            if dict_kv is None and len(out.items) == 1 and len(out.items[0].loops) == 1 and not out.items[0].guards:
+                # [D[k] for k in D] (or over D.keys()) is list(D.values()): one spelling
+                L = out.items[0].loops[0]
+                D = L[3]
+                if isinstance(D, tuple) and len(D) == 5 and D[0] == "mcall" and D[2] == "keys" and not D[3] and not D[4]:
+                    D = D[1]
+                v = out.items[0].value
+                if isinstance(D, tuple) and D and D[0] == "attr" and v == ("idx", D, ("elem", L)):
+                    return ("call", "list", (("mcall", D, "values", (), ()),), ())
             return out
         finally:
             del self.guards[n_base_guards:]
